@@ -126,6 +126,7 @@ KsReply ==
     /\ ksstatus' = CASE res = "expired" -> 401
                      [] res = "ok"      -> IF cs.present THEN 200 ELSE 404
                      [] OTHER           -> 403
+    /\ C!VerifyKs(PRel(cs), res = "ok")        \* keepstore's VerifySignature wrapper
     /\ C!KsGet(PRel(cs), ksstatus')
     /\ pc' = "done"
     /\ UNCHANGED <<cs, res, out>>
